@@ -313,39 +313,6 @@ func (c17) Run(ts *tape.Set, tier Tier) *Result {
 		sc.Tasks = append(sc.Tasks, ss)
 	}
 
-	// ---- expected results: each operation alone on a fresh node
-	expected := make([][]string, nTasks)
-	{
-		var perr string
-		panicked, site, pmsg := guard(func() {
-			for t := range taskOps {
-				for _, op := range taskOps[t] {
-					w := newWorld(st, false, nodeReifier)
-					var n datamodel.Node
-					var err error
-					if isFile {
-						n, _, err = openFile(w, root, 1)
-					} else {
-						n, err = w.Reify(root)
-					}
-					if err != nil {
-						perr = err.Error()
-						return
-					}
-					expected[t] = append(expected[t], c17RunOp(n, op, nil))
-				}
-			}
-		})
-		if panicked {
-			res.Violation = &Violation{Class: "c17/panic-sequential@" + site, Msg: "sequential reference run panicked: " + pmsg}
-			return res
-		}
-		if perr != "" {
-			res.Skipped, res.SkipReason = true, "cannot open node: "+perr
-			return res
-		}
-	}
-
 	// ---- the concurrent run
 	blocks := st.Snapshot()
 	schedTape := ts.T("sched")
@@ -479,6 +446,41 @@ func (c17) Run(ts *tape.Set, tier Tier) *Result {
 		fmt.Fprintf(os.Stderr, "RACE OUTSIDE LIBRARY AND HARNESS (not a verdict):\n%s\n", foreign[0])
 		os.Exit(2)
 	}
+	// ---- expected results: each operation alone on a fresh node. Computed
+	// AFTER the concurrent run: a sequential pass first would warm any lazily
+	// initialised process-wide state and hide races on its first use.
+	expected := make([][]string, nTasks)
+	{
+		var perr string
+		panicked, site, pmsg := guard(func() {
+			for t := range taskOps {
+				for _, op := range taskOps[t] {
+					w := newWorld(st, false, nodeReifier)
+					var n datamodel.Node
+					var err error
+					if isFile {
+						n, _, err = openFile(w, root, 1)
+					} else {
+						n, err = w.Reify(root)
+					}
+					if err != nil {
+						perr = err.Error()
+						return
+					}
+					expected[t] = append(expected[t], c17RunOp(n, op, nil))
+				}
+			}
+		})
+		if panicked {
+			res.Violation = &Violation{Class: "c17/panic-sequential@" + site, Msg: "sequential reference run panicked: " + pmsg}
+			return res
+		}
+		if perr != "" {
+			res.Skipped, res.SkipReason = true, "cannot open node: "+perr
+			return res
+		}
+	}
+
 	// (b) result equality with the sequential run
 	for t := range taskOps {
 		if len(got[t]) != len(expected[t]) {
